@@ -21,7 +21,7 @@ MOD = __name__
 RULE = ("Hypothesis call histories over the public client API (script operations before connect, after a connect that failed at "
         "greeting / STARTTLS / TLS handshake / post-TLS greeting / AUTHENTICATE, after success, after a second connect, after logout) "
         "x server behaviour at each handshake step {OK, NO, BYE, silence, malformed} x capability sets with/without STARTTLS and "
-        "differing pre-/post-TLS SASL lists x starttls flag, plus every public callable found by introspecting Client called with "
+        "differing pre-/post-TLS SASL lists, a cleartext capability listing appended to the STARTTLS reply (plaintext injection) x starttls flag, plus every public callable found by introspecting Client called with "
         "synthesised arguments on an unauthenticated connection; oracle on the ordered write log (plain vs TLS channel) and the "
         "reference server's view: no script-management verb unless AUTHENTICATE ended with OK on that connection (calls raise Error "
         "and write nothing), with starttls no AUTHENTICATE byte on the plain channel or before wrap_socket returned, failed/refused/"
@@ -48,6 +48,9 @@ def connection(draw):
         "auth_ok": draw(st.sampled_from([True, True, False])),
         "password": "pw",
     }
+    if starttls_cap and draw(st.integers(0, 3)) == 0:
+        # cleartext capability listing appended to the STARTTLS reply (plaintext injection)
+        cfg["inject_after_starttls"] = draw(st.sampled_from([["LOGIN"], ["PLAIN"], ["PLAIN", "LOGIN"], ["DIGEST-MD5"], []]))
     faults = []
     for verb in (b"GREETING", b"STARTTLS", b"TLSGREETING", b"AUTHENTICATE", b"AUTHVERDICT"):
         k = draw(st.sampled_from(KINDS + [None, None, None]))
@@ -190,7 +193,9 @@ def run(steps, introspect=False):
                             fails.append(("connect-succeeds-although-TLS-was-not-established", det))
                     for why, _ in c.srv.violations:
                         if why.startswith("mechanism"):
-                            fails.append(("mechanism-not-from-post-TLS-capabilities", det))
+                            fails.append(("mechanism-not-from-post-TLS-capabilities" + ("|cleartext-appended-to-STARTTLS-reply" if spec["cfg"].get("inject_after_starttls") is not None else ""), det))
+                    if spec["cfg"].get("inject_after_starttls") is not None:
+                        info["classes"].add("starttls-injection")
                 if res != ("ret", True):
                     failed_before_script = True
                     info["classes"].add("connect-fails")
@@ -340,7 +345,7 @@ def shrink(case, bucket, budget):
 def main(tier, seed, t0):
     quick = tier == "quick"
     col = core.run_shards(worker, [(seed * 1000 + 1000 + k, 500 if quick else 6000) for k in range(16)])
-    need = ["tls-requested", "tls-fails", "connect-fails", "connect-ok", "before-connect", "introspection"] + \
+    need = ["tls-requested", "tls-fails", "connect-fails", "connect-ok", "before-connect", "introspection", "starttls-injection"] + \
            ["introspected:" + m for m in SCRIPT_OPS]
     missing = [c for c in need if not col.classes.get(c)]
     if missing:
